@@ -253,4 +253,294 @@ theorem itemRewrite_first (hmk : MkOk mk) (hL : LinesOk L) {l0 t0 : List Char} {
 
 end fresh
 
+/-! ### symbolic execution of the list rule on a one-item list -/
+
+section exec
+
+/-- one list item whose body is handed to the nested tokenizer -/
+theorem listItem_exec {tok : Tok} {A : BState} {m pos : Nat} {pee tight : Bool} {o o₂ : LineOffset} {indent : Nat}
+    (ho : A.off m = .ok o) (hrw : itemRewrite A.src o pos = .ok (o₂, indent, false)) {t' : BState}
+    (htok : tok { src := A.src, offs := A.offs.set m o₂, blkIndent := indent, line := m, lineMax := A.lineMax,
+                  tight := true, listIndent := some A.blkIndent, level := A.level + 1, nodeKind := .listItem,
+                  children := [], refs := A.refs } = .ok t')
+    (hlv : t'.level = A.level + 1) (hli : t'.listIndent = some A.blkIndent) (hoffs : t'.offs = A.offs.set m o₂)
+    (hln : m + 1 ≤ t'.line) {r : Nat × Nat} (hr : Lines.getMap A.offs m (t'.line - 1) = .ok r) :
+    ∃ pee', listItem tok A m pos pee tight =
+      .ok ({ t' with level := A.level, blkIndent := A.blkIndent, listIndent := A.listIndent, offs := A.offs,
+                     tight := A.tight, nodeKind := A.nodeKind,
+                     children := A.children ++ [⟨t'.nodeKind, some r, t'.children⟩] },
+           (if ¬ t'.tight ∨ pee then false else tight), pee') := by
+  have hm : m < A.offs.length := off_lt ho
+  have hself : (A.offs.set m o₂).set m o = A.offs := by
+    rw [List.set_set]
+    have := (List.getElem?_eq_some_iff.mp (off_ok ho)).2
+    rw [← this]; exact List.set_getElem_self _
+  unfold listItem listItemBody prevEmptyEndOf
+  simp only [ho, hrw, ok_bind, BState.setOff, hm, if_true, Bool.false_eq_true, false_and, if_false, htok, hlv,
+    psub_eq (Nat.le_add_left 1 A.level), Nat.add_sub_cancel, hli, hoffs, List.length_set, hself,
+    psub_eq (show m ≤ t'.line by omega), psub_eq (show 1 ≤ t'.line by omega), pure, Except.pure]
+  split
+  · simp only [ok_bind, BState.getMap, hr, liftL_ok']
+    exact ⟨_, rfl⟩
+  · simp only [ok_bind, BState.getMap, hr, liftL_ok']
+    exact ⟨_, rfl⟩
+
+/-- the list loop over a list of one item that ends at `line_max` -/
+theorem listLoop_exec {tok : Tok} {test : Test} {ordered : Bool} {mc : Char} {fuel : Nat} {A A8 : BState}
+    {m pos : Nat} {pee tight tg pee' : Bool} (hlt : m < A.lineMax)
+    (hitem : listItem tok A m pos pee tight = .ok (A8, tg, pee')) (hend : A8.line ≥ A8.lineMax) :
+    listLoop tok test ordered mc (fuel + 1) A m pos pee tight = .ok (A8.line, tg, A8) := by
+  simp only [listLoop, hlt, not_true_eq_false, if_false, hitem, ok_bind, listContinue, if_pos hend, pure, Except.pure]
+
+/-- the node value of a list, from what `detectMarker` / `markerCharOf` return -/
+def kindOf (mv : Option Nat) (mc : Char) : Kind :=
+  match mv with
+  | some v => .orderedList v mc
+  | none => .bulletList mc
+
+/-- the list rule in real mode over a list of one item -/
+theorem listRule_exec {tok : Tok} {test : Test} {fuel : Nat} {A0 A8 : BState} {cur : List Char} {pos : Nat}
+    {mv : Option Nat} {mc : Char} {n : Nat} {tg : Bool} {item : BNode} {r : Nat × Nat}
+    (hind : A0.lineIndent A0.line = .ok 0) (hsp : listSpecial A0 = .ok false)
+    (hcur : A0.getLine A0.line = .ok cur) (hdet : detectMarker cur = .ok (some (pos, mv)))
+    (hmc : markerCharOf cur pos = .ok mc)
+    (hloop : listLoop tok test mv.isSome mc fuel
+      { A0 with nodeKind := kindOf mv mc, children := [], level := A0.level + 1 } A0.line pos false true
+        = .ok (n, tg, A8))
+    (hch : A8.children = [item]) (hik : item.kind = .listItem) (hlv : A8.level = A0.level + 1) (hn : 1 ≤ n)
+    (hr : A8.getMap A0.line (n - 1) = .ok r) :
+    listRule tok test fuel A0 false =
+      .ok (true, { A8 with level := A0.level, nodeKind := A0.nodeKind,
+                           children := A0.children ++ [⟨A8.nodeKind, some r,
+                             if tg then [{ item with children := markTight item.children }] else [item]⟩] }) := by
+  unfold kindOf at hloop
+  unfold listRule
+  cases mv with
+  | none =>
+    simp only [Option.isSome_none] at hloop
+    simp only [Bool.false_eq_true, false_and, if_false, hind, ok_bind, hsp, hcur, hdet, emptyItemCheck, pure, Except.pure,
+      hmc, Bool.false_and, show ¬ ((0 : Int) ≥ 4) by omega, decide_false, Option.isSome_none, hloop, hch, hlv,
+      psub_eq (Nat.le_add_left 1 A0.level), Nat.add_sub_cancel, psub_eq hn, hr]
+    cases tg with
+    | true => simp only [if_true, tightenItems, hik, ne_eq, not_true_eq_false, if_false, ok_bind]
+    | false => simp only [Bool.false_eq_true, if_false, ok_bind]
+  | some v =>
+    simp only [Option.isSome_some] at hloop
+    simp only [Bool.false_eq_true, false_and, if_false, hind, ok_bind, hsp, hcur, hdet, emptyItemCheck, pure, Except.pure,
+      hmc, Bool.false_and, show ¬ ((0 : Int) ≥ 4) by omega, decide_false, Option.isSome_some, hloop, hch, hlv,
+      psub_eq (Nat.le_add_left 1 A0.level), Nat.add_sub_cancel, psub_eq hn, hr]
+    cases tg with
+    | true => simp only [if_true, tightenItems, hik, ne_eq, not_true_eq_false, if_false, ok_bind]
+    | false => simp only [Bool.false_eq_true, if_false, ok_bind]
+
+end exec
+
+/-! ### the outer run on the prefixed document -/
+
+section outer
+variable {mk : List Char}
+
+theorem slice_first_line (hmk : MkOk mk) {L : DLines} {l0 t0 : List Char} {rest : DLines} (hL0 : L = (l0, t0) :: rest) :
+    Lines.slice (Lines.flat (indentLines (preAt mk) L)) 0 (mk.length + 1 + Lines.byteLen l0)
+      = .ok (mk ++ ' ' :: l0) := by
+  have h0 : 0 < L.length := by rw [hL0]; simp
+  have hg0 : L[0] = (l0, t0) := by simp [hL0]
+  have hi' : 0 < (indentLines (preAt mk) L).length := by rw [indentLines_length]; exact h0
+  have hp : preAt mk 0 = mk ++ [' '] := by unfold preAt; rw [if_pos rfl]
+  have hline0 := indentLines_getElem (preAt mk) L 0 h0
+  rw [hg0] at hline0
+  have hline : ((indentLines (preAt mk) L)[0]'hi').1 = mk ++ ' ' :: l0 := by
+    rw [hline0, hp]; simp
+  have := slice_in_line (indentLines (preAt mk) L) 0 hi' [] (mk ++ ' ' :: l0) [] (by rw [hline]; simp)
+  simp only [startOf_zero, Lines.byteLen_nil, Nat.add_zero, Nat.zero_add, Lines.byteLen_append, hmk.bytes,
+    Lines.byteLen_cons, show ' '.utf8Size = 1 by decide] at this
+  rw [← this]; congr 1; omega
+
+/-- the list rule on the prefixed document, given the run on `D` -/
+theorem list_on_prefixed {cfg cfg' : Cfg} (R : CfgRel cfg cfg') (hmk : MkOk mk) (D : List Char)
+    (htab : '\t' ∉ D) (hsize : Lines.byteLen D + mk.length + 9 < 2147483648)
+    (hfirst : FirstOk (Lines.linesT D)) (hnest : 0 < cfg.maxNesting)
+    {mv : Option Nat} {mc : Char}
+    (hdet : ∀ rest, detectMarker (mk ++ ' ' :: rest) = .ok (some (mk.length, mv)))
+    (hmc : ∀ rest, markerCharOf (mk ++ ' ' :: rest) mk.length = .ok mc)
+    {G : Nat} {t : BState} (ht : tokenize cfg G (BState.fresh D .root []) = .ok t) :
+    ∃ (t1 : BState) (r : Nat × Nat),
+      listRule (tokenize cfg' G) (testRules cfg' G) (G + 1) (BState.fresh (itemDoc mk D) .root []) false
+        = .ok (true, t1) ∧
+      t1.line = (Lines.linesT D).length ∧ t1.lineMax = (Lines.linesT D).length ∧ t1.nodeKind = .root ∧
+      t1.refs = t.refs ∧
+      t1.children = [⟨kindOf mv mc, some r, [⟨.listItem, some r,
+          if t.tight then markTight (relocNodes (tau (mk.length + 1) (Lines.linesT D)) t.children)
+          else relocNodes (tau (mk.length + 1) (Lines.linesT D)) t.children⟩]⟩] ∧
+      Lines.getMap (Lines.splitLines (itemDoc mk D)) 0 ((Lines.linesT D).length - 1) = .ok r := by
+  obtain ⟨L, hLdef⟩ : ∃ L, L = Lines.linesT D := ⟨_, rfl⟩
+  rw [← hLdef] at hfirst ⊢
+  have hL : LinesOk L := by rw [hLdef]; exact linesOk_linesT D htab (by omega)
+  have hflat : Lines.flat L = D := by rw [hLdef]; exact Lines.linesT_flat D
+  obtain ⟨l0, t0, rest, hL0, hnb, hind⟩ := hfirst
+  have hn1 : 1 ≤ L.length := by rw [hL0]; simp
+  have hg0 : L[0] = (l0, t0) := by simp [hL0]
+  obtain ⟨C, hC⟩ : ∃ C : Ctx, C = ⟨mk.length + 1, preAt mk, L⟩ := ⟨_, rfl⟩
+  obtain ⟨s0, hs0⟩ : ∃ s0, s0 = BState.fresh D .root [] := ⟨_, rfl⟩
+  obtain ⟨A0, hA0⟩ : ∃ A0, A0 = BState.fresh (itemDoc mk D) .root [] := ⟨_, rfl⟩
+  rw [← hs0] at ht
+  rw [← hA0]
+  -- the two fresh tables
+  have hoffs0 : s0.offs = Lines.offsetsOf 0 L := by rw [hs0, hLdef]; exact Lines.splitLines_eq D
+  have hoffsA : A0.offs = Lines.offsetsOf 0 (indentLines (preAt mk) L) := by
+    rw [hA0, hLdef]; exact splitLines_itemDoc hmk D
+  have hlen0 : s0.offs.length = L.length := by rw [hoffs0]; simp
+  have hlenA : A0.offs.length = L.length := by rw [hoffsA]; simp
+  have hlm0 : s0.lineMax = L.length := by rw [← hlen0, hs0]; rfl
+  have hlmA : A0.lineMax = L.length := by rw [← hlenA, hA0]; rfl
+  have hsrcA : A0.src = Lines.flat (indentLines (preAt mk) L) := by rw [hA0, hLdef]; rfl
+  have hA0line : A0.line = 0 := by rw [hA0]; rfl
+  have hA0blk : A0.blkIndent = 0 := by rw [hA0]; rfl
+  have hA0lvl : A0.level = 0 := by rw [hA0]; rfl
+  have hA0li : A0.listIndent = none := by rw [hA0]; rfl
+  have hA0k : A0.nodeKind = .root := by rw [hA0]; rfl
+  have hA0c : A0.children = [] := by rw [hA0]; rfl
+  have hA0r : A0.refs = [] := by rw [hA0]; rfl
+  have hA0t : A0.tight = false := by rw [hA0]; rfl
+  have hentA : ∀ i, i < L.length → A0.offs[i]? = some (freshEntry (indentLines (preAt mk) L) i) := fun i hi => by
+    rw [hoffsA]; exact offsetsOf_entry _ i (by rw [indentLines_length]; exact hi)
+  have hent0 : ∀ i, i < L.length → s0.offs[i]? = some (freshEntry L i) := fun i hi => by
+    rw [hoffs0]; exact offsetsOf_entry _ i hi
+  have hfirstE : freshEntry (indentLines (preAt mk) L) 0 = ⟨0, mk.length + 1 + Lines.byteLen l0, 0, 0⟩ := by
+    have := fresh_first (L := L) hmk (by omega)
+    rw [hg0] at this; exact this
+  -- reading line 0
+  have hoffA0 : A0.off 0 = .ok ⟨0, mk.length + 1 + Lines.byteLen l0, 0, 0⟩ := by
+    simp [BState.off, hentA 0 (by omega), hfirstE]
+  have hindA : A0.lineIndent A0.line = .ok 0 := by
+    simp [BState.lineIndent, Lines.lineIndent, hA0line, hentA 0 (by omega), hfirstE, hA0blk, liftL]
+  have hcurA : A0.getLine A0.line = .ok (mk ++ ' ' :: l0) := by
+    simp only [BState.getLine, Lines.getLine, hA0line, hentA 0 (by omega), hfirstE, hsrcA, slice_first_line hmk hL0,
+      liftL_ok']
+  have hspA : listSpecial A0 = .ok false := by simp [listSpecial, hA0li, pure, Except.pure]
+  -- the item's first line
+  have hrw := itemRewrite_first hmk hL hL0 hnb hind
+  rw [← hsrcA] at hrw
+  obtain ⟨E0, hE0⟩ : ∃ E0, E0 = shiftE (mk.length + 1) ((mk.length + 1 : Nat) : Int) 0 (freshEntry L 0) := ⟨_, rfl⟩
+  rw [← hE0] at hrw
+  -- the state handed to the nested tokenizer
+  obtain ⟨B, hB⟩ : ∃ B : BState, B = (⟨A0.src, A0.offs.set 0 E0, mk.length + 1, 0, A0.lineMax, true, some A0.blkIndent,
+      A0.level + 1 + 1, .listItem, [], A0.refs⟩ : BState) := ⟨_, rfl⟩
+  have hwin : Win (mk.length + 1) (mk.length + 1) 0 L.length s0.offs B.offs := by
+    intro i _ hi
+    refine ⟨?_, fun _ o ho => ?_⟩
+    · rw [hent0 i hi, hB]
+      simp only [Option.map_some]
+      by_cases hi0 : i = 0
+      · subst hi0
+        simp only [List.getElem?_set, if_true, hlenA, hE0]
+        rw [if_pos (by omega)]
+      · simp only [List.getElem?_set, if_neg (Ne.symm hi0)]
+        rw [hentA i hi, fresh_shift hmk hL i (by omega) hi]
+    · rw [hent0 i hi] at ho
+      cases ho
+      simp [freshEntry, List.getElem?_eq_getElem hi, mkOff]
+  have hq_ok : ∀ (i : Nat) (o : LineOffset), s0.offs[i]? = some o → EntryOk L i o := by
+    intro i o ho
+    have hi : i < L.length := by
+      have := (List.getElem?_eq_some_iff.mp ho).1; omega
+    rw [hent0 i hi] at ho
+    cases ho
+    exact entryOk_fresh hL i hi
+  have hq_geo : ∀ i : Nat, ∃ di : Int, B.offs[i]? = (s0.offs[i]?).map (shiftE (mk.length + 1) di i) := by
+    intro i
+    by_cases hi : i < L.length
+    · exact ⟨((mk.length + 1 : Nat) : Int), (hwin i (Nat.zero_le _) hi).1⟩
+    · refine ⟨0, ?_⟩
+      have h1 : B.offs[i]? = none := by
+        apply List.getElem?_eq_none; rw [hB]; simp only [List.length_set]; omega
+      have h2 : s0.offs[i]? = none := by
+        apply List.getElem?_eq_none; omega
+      rw [h1, h2]; rfl
+  have T0 : Tbl C 0 (mk.length + 1) s0 B := by
+    subst hC
+    exact { pre := preOk_preAt hmk, lines := hL, src := by rw [hs0, hflat]; rfl, src' := by rw [hB]; exact hsrcA,
+            q := ⟨hlen0, hq_ok, hq_geo⟩, win := by rw [hlm0]; exact hwin,
+            blk := by rw [hB, hs0]; simp [BState.fresh],
+            small := by rw [hs0]; exact Nat.zero_le _, dsmall := Nat.le_refl _,
+            wsize := by simp only; rw [hflat]; omega }
+  have hs0li : s0.listIndent = none := by rw [hs0]; rfl
+  have hs0blk : s0.blkIndent = 0 := by rw [hs0]; rfl
+  have hs0line : s0.line = 0 := by rw [hs0]; rfl
+  have S0 : Sim C 0 (mk.length + 1) false s0 B :=
+    { tbl := T0, line := by rw [hB, hs0line], lineMax := by rw [hB]; simp only; rw [hlmA, hlm0],
+      tight := (fun h => by cases h),
+      listIndent := .inr (.inr ⟨hs0blk, hs0li, by rw [hB]; simp only; rw [hA0blk]⟩),
+      level := by rw [hB]; simp only; rw [hA0lvl, hs0]; rfl,
+      nodeKind := .inr ⟨by rw [hs0]; rfl, by rw [hB]⟩,
+      children := by rw [hB, hs0]; rfl, refs := by rw [hB]; simp only; rw [hA0r, hs0]; rfl }
+  have hlt0 : s0.line < s0.lineMax := by rw [hlm0, hs0line]; omega
+  -- the nested run
+  have hne0 : s0.isEmpty s0.line = false := by
+    have hl : s0.line = 0 := by rw [hs0]; rfl
+    simp only [BState.isEmpty, Lines.isEmpty, hl, hent0 0 (by omega)]
+    simp only [freshEntry, List.getElem?_eq_getElem (show 0 < L.length by omega), hg0, mkOff, startOf_zero,
+      decide_eq_false_iff_not, Nat.zero_add, ge_iff_le, Nat.not_le]
+    have hbl : Lines.byteLen l0 = (lead l0).length + Lines.byteLen (l0.dropWhile Lines.isBlank) := by
+      have := congrArg Lines.byteLen (Lines.lead_append_rest l0)
+      simp only [Lines.byteLen_append, Lines.byteLen_lead] at this
+      omega
+    have hrest : 1 ≤ Lines.byteLen (l0.dropWhile Lines.isBlank) := by
+      cases hd : l0.dropWhile Lines.isBlank with
+      | nil => exact absurd hd hnb
+      | cons c r => have := Lines.utf8Size_pos' c; simp; omega
+    omega
+  have hi0 : IndentOk s0 := by
+    have hl : s0.line = 0 := by rw [hs0]; rfl
+    have hb : s0.blkIndent = 0 := by rw [hs0]; rfl
+    refine ⟨_, lineIndent_of_off (by rw [hl]; exact hent0 0 (by omega)), ?_⟩
+    simp [hb, freshEntry, List.getElem?_eq_getElem (show 0 < L.length by omega), mkOff]
+  obtain ⟨t', htok', St⟩ := tokenize_sim_first (C := C) R S0 (Nat.zero_le _) hlt0
+    hne0 hi0 (by rw [hs0]; exact hnest) ht
+  have hfr' := (tokenize_tokSpec cfg' G).frame _ _ htok'
+  -- the lines consumed
+  have htl : t.line = L.length := by
+    have h1 := tokenize_fresh_end (cfg := cfg) (F := G) (D := D) (k := .root) (refs := []) (t := t) (by rw [← hs0]; exact ht)
+    rw [h1, ← hlen0, hs0]; rfl
+  have ht'l : t'.line = L.length := by rw [St.line, htl]
+  -- the range
+  obtain ⟨r, hr0⟩ : ∃ r, Lines.getMap A0.offs 0 (L.length - 1) = .ok r := by
+    have h0 : 0 < A0.offs.length := by omega
+    have h1 : L.length - 1 < A0.offs.length := by omega
+    refine ⟨(A0.offs[0].firstNonspace, A0.offs[L.length - 1].lineEnd), ?_⟩
+    simp [Lines.getMap, List.getElem?_eq_getElem h0, List.getElem?_eq_getElem h1]
+  -- the item
+  obtain ⟨A1, hA1⟩ : ∃ A1 : BState, A1 = { A0 with nodeKind := kindOf mv mc, children := [], level := A0.level + 1 } := ⟨_, rfl⟩
+  have htokB : tokenize cfg' G (⟨A1.src, A1.offs.set 0 E0, mk.length + 1, 0, A1.lineMax, true, some A1.blkIndent,
+      A1.level + 1, .listItem, [], A1.refs⟩ : BState) = .ok t' := by
+    rw [hA1]; rw [hB] at htok'; exact htok'
+  obtain ⟨pee', hitem⟩ := listItem_exec (tok := tokenize cfg' G) (A := A1) (m := 0) (pos := mk.length) (pee := false)
+    (tight := true) (o₂ := E0) (indent := mk.length + 1) (t' := t') (r := r)
+    (by rw [hA1]; exact hoffA0) (by rw [hA1]; exact hrw) htokB
+    (by rw [hfr'.level, hB, hA1]) (by rw [hfr'.listIndent, hB, hA1]) (by rw [hfr'.offs, hB, hA1])
+    (by omega) (by rw [ht'l, hA1]; exact hr0)
+  -- the loop
+  have hloop := listLoop_exec (test := testRules cfg' G) (ordered := mv.isSome) (mc := mc) (fuel := G)
+    (show 0 < A1.lineMax by rw [hA1]; simp only; omega) hitem
+    (by simp only [ge_iff_le]; rw [hfr'.lineMax, ht'l, hB]; simp only; omega)
+  simp only at hloop
+  rw [ht'l] at hloop
+  -- the rule
+  have hrule := listRule_exec (tok := tokenize cfg' G) (test := testRules cfg' G) (fuel := G + 1) (A0 := A0)
+    (pos := mk.length) (mv := mv) (mc := mc) (n := L.length) (r := r)
+    (item := ⟨t'.nodeKind, some r, t'.children⟩) hindA hspA hcurA (hdet l0) (hmc l0)
+    (by rw [hA1] at hloop; simp only [hA0line] at hloop ⊢; exact hloop)
+    (by rw [hA1]; simp only; rw [hA0c]; rfl) (by simp only; rw [hfr'.nodeKind, hB]) (by rw [hA1]) hn1
+    (by simp only [BState.getMap, hA0line]; rw [hA1]; simp only [hr0, liftL_ok'])
+  refine ⟨_, r, hrule, ?_, ?_, ?_, ?_, ?_, ?_⟩
+  · simp only [ht'l]
+  · simp only; rw [hfr'.lineMax, hB]; exact hlmA
+  · simp only [hA0k]
+  · simp only [St.refs]
+  · simp only [hA0c, List.nil_append, hA1, St.children, hfr'.nodeKind, hB, St.tight rfl]
+    subst hC
+    cases t.tight <;> simp
+  · rw [← hr0, hA0]; rfl
+end outer
+
 end MdIt.Block.Li
